@@ -620,6 +620,114 @@ func tableAcmeRoutes(repo string) string {
 	return b.String()
 }
 
+// ---------------------------------------------------------------- PolicyCalls (C04)
+
+var policyMethods = map[string]bool{"IsX509CertificateAllowed": true, "IsX509CertificateRequestAllowed": true, "AreSANsAllowed": true,
+	"IsSSHCertificateAllowed": true, "IsDNSAllowed": true, "IsIPAllowed": true}
+var policyDirs = []string{"api", "acme", "acme/api", "scep", "scep/api", "authority", "authority/policy", "authority/provisioner", "ca"}
+
+// functions whose call order matters: the policy gate must precede the signing call
+var orderedFns = map[string][]string{
+	"authority/tls.go:Authority.signX509":   {"isAllowedToSignX509Certificate", "CreateCertificate", "storeCertificate"},
+	"authority/ssh.go:Authority.signSSH":    {"isAllowedToSignSSHCertificate", "CreateCertificate", "storeSSHCertificate"},
+	"acme/api/order.go:NewOrder":            {"AuthorizeOrderIdentifier", "isIdentifierAllowed", "AreSANsAllowed", "newAuthorization", "CreateOrder"},
+	"acme/api/order.go:isIdentifierAllowed": {"AreSANsAllowed"},
+}
+
+func funcKey(dir, fname string, fd *ast.FuncDecl) string {
+	name := fd.Name.Name
+	if fd.Recv != nil && len(fd.Recv.List) == 1 {
+		t := fd.Recv.List[0].Type
+		if st, ok := t.(*ast.StarExpr); ok {
+			t = st.X
+		}
+		if id, ok := t.(*ast.Ident); ok {
+			name = id.Name + "." + name
+		}
+	}
+	return dir + "/" + fname + ":" + name
+}
+
+func tablePolicyCalls(repo string) string {
+	type row struct{ loc, method string }
+	cnt := map[row]int{}
+	var order []row
+	ordered := map[string][]string{}
+	for _, dir := range policyDirs {
+		fset := token.NewFileSet()
+		files := parseDir(fset, filepath.Join(repo, dir))
+		for _, fname := range sortedKeys(files) {
+			for _, d := range files[fname].Decls {
+				fd, ok := d.(*ast.FuncDecl)
+				if !ok || fd.Body == nil {
+					continue
+				}
+				key := funcKey(dir, fname, fd)
+				watch := orderedFns[key]
+				ast.Inspect(fd.Body, func(n ast.Node) bool {
+					c, ok := n.(*ast.CallExpr)
+					if !ok {
+						return true
+					}
+					var callee string
+					switch f := c.Fun.(type) {
+					case *ast.SelectorExpr:
+						callee = f.Sel.Name
+						if policyMethods[callee] {
+							r := row{key, callee}
+							if cnt[r] == 0 {
+								order = append(order, r)
+							}
+							cnt[r]++
+						}
+					case *ast.Ident:
+						callee = f.Name
+					}
+					for _, w := range watch {
+						if w == callee {
+							ordered[key] = append(ordered[key], callee)
+						}
+					}
+					return true
+				})
+			}
+		}
+	}
+	for k := range orderedFns {
+		if _, ok := ordered[k]; !ok {
+			die("PolicyCalls: function %s not found or calls none of the watched functions", k)
+		}
+	}
+	var b strings.Builder
+	b.WriteString("-- GENERATED by /verif/extract — do not edit; rewritten on every run\n")
+	b.WriteString("namespace Verif.Generated.PolicyCalls\n\ndef extractorOk : Bool := true\n\n")
+	b.WriteString("/-- every call of a policy-engine entry point outside /policy: (pkg/file:func, method, occurrences) -/\n")
+	b.WriteString("def sites : List (String × String × Nat) := [\n")
+	for i, r := range order {
+		sep := ","
+		if i == len(order)-1 {
+			sep = ""
+		}
+		fmt.Fprintf(&b, "  (%s, %s, %d)%s\n", q(r.loc), q(r.method), cnt[r], sep)
+	}
+	b.WriteString("]\n\n/-- source order of the watched calls inside the issuance functions -/\n")
+	b.WriteString("def callOrder : List (String × List String) := [\n")
+	ks := sortedKeys(ordered)
+	for i, k := range ks {
+		var xs []string
+		for _, x := range ordered[k] {
+			xs = append(xs, q(x))
+		}
+		sep := ","
+		if i == len(ks)-1 {
+			sep = ""
+		}
+		fmt.Fprintf(&b, "  (%s, [%s])%s\n", q(k), strings.Join(xs, ", "), sep)
+	}
+	b.WriteString("]\n\nend Verif.Generated.PolicyCalls\n")
+	return b.String()
+}
+
 func main() {
 	repo := flag.String("repo", "/repo", "path of the smallstep/certificates working tree")
 	table := flag.String("table", "", "Locks | PanicSites | AcmeRoutes")
@@ -633,6 +741,8 @@ func main() {
 		src = tablePanicSites(*repo)
 	case "AcmeRoutes":
 		src = tableAcmeRoutes(*repo)
+	case "PolicyCalls":
+		src = tablePolicyCalls(*repo)
 	default:
 		die("unknown table %q", *table)
 	}
